@@ -4,7 +4,7 @@
 prove:      coq/theories/Properties_C25.v (logger exit flag over any finding sequence,
             per-file reset + sum over files, whole-program stage, unmatchedSuppression
             contribution, final status for the single / thread / process executors,
-            --error-exitcode=0 => 0, refutation for unmatchedSuppression vs nofail)
+            --error-exitcode=0 => 0; unmatchedSuppression findings honour nofail since fix 7b7622c)
 correspond: extracted model (Supp/RunExec.v) vs harness (CppCheck::verifLogger().reportErr +
             verifExitCode) and vs the exit status of the real cppcheck binary on generated
             programs x --suppress x --exitcode-suppressions x --error-exitcode x executors
@@ -26,7 +26,6 @@ from props import supp_common as G
 from props import exec_common as X
 
 PID = "C25"
-KEY_UNMATCHED = "unmatchedSuppression-ignores-exitcode-suppressions"
 
 
 def sha(c):
@@ -154,16 +153,10 @@ def check(run, replay):
     run.stream("property on printed findings (status iff unsuppressed finding)")["disagreements"] += len(spec_fail)
     other = 0
     for prog, cfg, rrc, want, printed in sorted(spec_fail, key=lambda x: (len(x[0].files), len(x[1]["nomsg"]) + len(x[1]["nofail"]))):
-        # known shape: the status is the exit code although every printed finding is matched by an
-        # exitcode suppression, and at least one printed finding is an unmatchedSuppression one
-        shape = rrc == cfg["exitcode"] and want == 0 and any(p[2] == "unmatchedSuppression" for p in printed)
-        if shape:
-            key = KEY_UNMATCHED
-        else:
-            other += 1
-            if other > 2:
-                continue
-            key = "status-vs-printed:" + hashlib.sha1(repr((sorted(prog.files.items()), cfg["exitcode"], [s for s, _ in cfg["nomsg"]], [s for s, _ in cfg["nofail"]], cfg["kind"])).encode()).hexdigest()[:12]
+        other += 1
+        if other > 2:
+            continue
+        key = "status-vs-printed:" + hashlib.sha1(repr((sorted(prog.files.items()), cfg["exitcode"], [s for s, _ in cfg["nomsg"]], [s for s, _ in cfg["nofail"]], cfg["kind"])).encode()).hexdigest()[:12]
         argv = X.JARGS[cfg["kind"]] + (["--enable=information"] if cfg["info"] else []) + (["--inline-suppr"] if cfg["inline"] else []) + \
             ["--error-exitcode=%d" % cfg["exitcode"]] + ["--suppress=" + s for s, _ in cfg["nomsg"]] + \
             (["--exitcode-suppressions=nofail.txt"] if cfg["nofail"] else []) + prog.order
